@@ -189,7 +189,18 @@ claim('C19',
       'abstract interpretation of literal straight-line gate programs over the Pauli tableau domain; finite exhaustive enumeration of errors below d',
       'DESIGN.md 4 (Q), 5 C19')
 
-na('C09', 'bijectivity/counting of the Sp(2n,F2) indexing and the transvection lemma are properties of runtime bit vectors under data-dependent branching; no code-shape clause of substance')
+claim('C09',
+      'Decides the writer/reader agreement clauses of the Sp(2n,F2) indexing, each a necessary condition of "the inverse map returns the '
+      'original tuple" / "every image preserves the symplectic form": base, order and coset radices are built from the same generator 4^i and '
+      'factor pair (SP1); the recursive step embeds by ONE index map for rows and columns and the decoder removes the same rows/columns in '
+      'the same order (SP2); the (a_i, b_i) codec has inverse offsets, matching bit widths, identical h0 slices and the same polarity for the '
+      'extra transvection (SP3); one bit/byte order in the bit-array helpers (SP4); the symplectic form crosses the halves, a transvection is '
+      'x + <x,h>h, the closed-form inverse is roll(S^T, n) on both axes (SP5); the two symmetric blocks of find_transvection are twins up to '
+      'v0 <-> v1 (SP6); radix draws of rand_SpF2 stay inside the radix (S5). The bijection itself (distinctness, image = whole group, the '
+      'Lemma-2 case analysis mapping v0 to v1) is a property of run-time bit vectors and is NOT decided.',
+      'Trusted: the idiom tables of SP2/SP3 (slice texts); a restructured encoder/decoder is reported as analysis error, never as a violation.',
+      'ast sibling (encoder/decoder) agreement: slice-map extraction, alpha-renamed twin comparison, literal table checks',
+      'DESIGN.md 4 (SP), 5 C09')
 na('C14', 'group axioms of computed Cayley tables, partition and tableau counts are value-level combinatorics; only a 4x4 literal is visible statically')
 claim('C17',
       'Decides the relabelling clauses: numqi.utils.partial_trace contracts with legs rows=range(N0), cols=range(N0,2N0) where exactly the '
